@@ -2760,10 +2760,10 @@ func (db *DB) Export(ctx context.Context, dst io.Writer) (ltx.Pos, error) {
 		walFrameOffsets[k] = v
 	}
 
-	// Release write lock, if acquired.
-	gs.write.Unlock()
-
 	// Acquire the CKPT & READ locks to prevent checkpointing, in case this is in WAL mode.
+	// These are acquired before the temporary write lock is released. Otherwise
+	// a writer and checkpointer could commit, checkpoint & restart the WAL in
+	// between which would mix pages of a later position into the export.
 	if err := gs.ckpt.RLock(ctx); err != nil {
 		return pos, fmt.Errorf("acquire CKPT read lock: %w", err)
 	}
@@ -2785,6 +2785,9 @@ func (db *DB) Export(ctx context.Context, dst io.Writer) (ltx.Pos, error) {
 	if err := gs.read4.RLock(ctx); err != nil {
 		return pos, fmt.Errorf("acquire READ4 read lock: %w", err)
 	}
+
+	// Release write lock, if acquired.
+	gs.write.Unlock()
 
 	// Open database file.
 	dbFile, err := db.os.Open("EXPORT:DB", db.DatabasePath())
